@@ -263,3 +263,58 @@ def write_evidence(pid, tier, seed, level, coverage, assumptions, wall, violatio
         json.dump(ev, fh, indent=1, ensure_ascii=False)
         fh.write("\n")
     return ev
+
+
+def extract_tables():
+    """tg-extract: re-read the tables from /repo/src (fails loudly when the expected shape is gone)"""
+    env = dict(ENV)
+    env["VERIF_REPO"] = REPO
+    p = subprocess.run([TGH, "extract"], stdout=subprocess.PIPE, stderr=subprocess.PIPE, env=env, text=True)
+    if p.returncode != 0:
+        raise BuildFailed("tg-extract: " + p.stderr.strip())
+    return json.loads(p.stdout)
+
+
+def lean_str(s):
+    return json.dumps(s, ensure_ascii=False)
+
+
+def lean_list(xs):
+    return "[" + ", ".join(lean_str(x) for x in xs) + "]"
+
+
+def regen_tables(tables):
+    """rewrite lean/Typegen/Generated/Tables.lean from the extracted tables (only when changed)"""
+    d = os.path.join(LEAN, "Typegen", "Generated")
+    os.makedirs(d, exist_ok=True)
+    body = ["/-! GENERATED by `tgh extract` from /repo/src on every check run — do not edit. -/", "namespace Gen", ""]
+    body.append("def hashStructs : List (String × List String) := [")
+    body.append(",\n".join("  (%s, %s)" % (lean_str(s["name"]), lean_list(s["fields"])) for s in tables["hash_structs"]))
+    body.append("]")
+    for k, n in [("generated_literals", "generatedLiterals"), ("generated_prefixes", "generatedPrefixes"),
+                 ("generated_infixes", "generatedInfixes"), ("generated_suffixes", "generatedSuffixes"),
+                 ("write_probe", "writeProbe"), ("written_files", "writtenFiles"), ("cache_file", "cacheFile"),
+                 ("viz_files", "vizFiles"), ("primitive_table", "primitiveTable")]:
+        body.append("def %s : List String := %s" % (n, lean_list(tables[k])))
+    body += ["", "end Gen", ""]
+    text = "\n".join(body)
+    path = os.path.join(d, "Tables.lean")
+    if not os.path.exists(path) or open(path).read() != text:
+        with open(path, "w") as fh:
+            fh.write(text)
+    return path
+
+
+def pipeline_lines(name, lines):
+    """feed prepared request lines to the driver; returns (req_path, resp_path)"""
+    os.makedirs(WORK, exist_ok=True)
+    req = os.path.join(WORK, name + ".req.jsonl")
+    resp = os.path.join(WORK, name + ".resp.jsonl")
+    with open(req, "w") as fh:
+        for l in lines:
+            fh.write(json.dumps(l, ensure_ascii=False) + "\n")
+    with open(req) as rq, open(resp, "w") as rs:
+        p = subprocess.run([DRIVER], stdin=rq, stdout=rs, stderr=subprocess.PIPE, env=ENV)
+        if p.returncode != 0:
+            raise BuildFailed("driver failed rc %d: %s" % (p.returncode, p.stderr.decode(errors="replace")[-2000:]))
+    return req, resp
